@@ -89,6 +89,7 @@ pub struct Profile {
     /// occasionally a much longer history (ten times the application actions, up to 150)
     pub p_long: u64,
     pub p_storm: u64,
+    pub p_zero_lat: u64,
 }
 
 impl Profile {
@@ -140,6 +141,7 @@ impl Profile {
             p_burst: 60,
             p_long: 30,
             p_storm: 15,
+            p_zero_lat: 25,
         }
     }
 }
@@ -325,7 +327,9 @@ fn gen_cfg(p: &Profile, rng: &mut Rng) -> Cfg {
         srv_algs: rng.pick(&["none", "none", "md5", "sha", "md5sha", "shamd5", "unsupsha"]).to_string(),
         srv_legacy: rng.chance(1, 4),
         srv_lenient: rng.chance(p.p_lenient, 1000),
-        lat_ns: rng.log_range(p.lat_ns.0, p.lat_ns.1),
+        // now and then a peer in the same process / a controller that stamps a whole batch of calls with one
+        // instant: the response is handed over at the very instant the request was sent (round-trip time zero)
+        lat_ns: if rng.chance(p.p_zero_lat, 1000) { 0 } else { rng.log_range(p.lat_ns.0, p.lat_ns.1) },
         n_app: {
             let n = rng.range(p.n_app.0, p.n_app.1) as usize;
             if rng.chance(p.p_long, 1000) {
@@ -658,7 +662,7 @@ fn gen_corruption(rng: &mut Rng, len: usize, splice: bool) -> String {
         let n = rng.range(1, 4);
         let mut s = String::new();
         for _ in 0..n {
-            s.push(*rng.pick(&['a', 'a', 'u', 'm', 'M', 's', 'S', 'f', 'F']));
+            s.push(*rng.pick(&['a', 'a', 'u', 'm', 'M', 's', 'S', 'f', 'F', 'a', 'u', 'm', 'M', 's', 'S', 'f', 'F', 't', 'r']));
         }
         return format!("corrupt=splice spec={}", s);
     }
